@@ -19,6 +19,8 @@ import (
 
 const huge = 1e9
 
+var errIgnored = errors.New("the harness-registered generator yields no controller")
+
 func sumSleeps(s []time.Duration) int64 {
 	n := int64(0)
 	for _, d := range s {
@@ -92,6 +94,13 @@ func flowKit(m *rulesh.Mod[flow.Rule]) *kit[flow.Rule] {
 		return segments(r, func() ev { return ev{Dt: uint64(r.PickI(0, 0, 1, 10, 100, 100, 300, 600, 1100, 2500))} })
 	}
 	kt.drain = func() {}
+	// a user-registered generator (strategy pair 5/4): runs the harness action, yields no controller
+	kt.genRule = func(res string) *flow.Rule {
+		return &flow.Rule{Resource: res, TokenCalculateStrategy: 5, ControlBehavior: 4, Threshold: huge}
+	}
+	if err := flow.VerifSetGenerator(5, 4, func(*flow.Rule) error { runGenAct(); return errIgnored }); err != nil {
+		panic(err)
+	}
 	kt.newRun = func(res string, u *flow.Rule) func(e ev) dec {
 		return func(e ev) dec {
 			clk.AddMs(e.Dt)
@@ -115,6 +124,33 @@ func flowKit(m *rulesh.Mod[flow.Rule]) *kit[flow.Rule] {
 	kt.stat = func(r *rng.R, res string) statScen[flow.Rule] {
 		iv := uint32(r.PickI(700, 3000))
 		n := 1 + r.Intn(6)
+		if r.Chance(1, 3) {
+			// one old statistics object, two new rules with its statistic parameters: the first in list
+			// order takes the accumulated window over, the second counts from zero in a window of its own
+			sc := statScen[flow.Rule]{BaseMs: 1700000001000 / 21000 * 21000, Reuse: true}
+			sc.Pre = []*flow.Rule{{Resource: res, Threshold: 100, StatIntervalInMs: iv}}
+			for i := 0; i < n; i++ {
+				sc.Warm = append(sc.Warm, ev{Dt: 1})
+			}
+			t := [2]float64{float64(int64(n) + r.PickI(0, 1, 2, 3, 50)), float64(r.PickI(1, 2, 3, 4, 60))}
+			if t[0] == t[1] {
+				t[1]++
+			}
+			sc.Mod = []*flow.Rule{{Resource: res, Threshold: t[0], StatIntervalInMs: iv}, {Resource: res, Threshold: t[1], StatIntervalInMs: iv}}
+			cnt := [2]float64{float64(n), 0} // own ledger of the two windows
+			for i := 0; i < 6; i++ {
+				sc.Probe = append(sc.Probe, ev{Dt: 1})
+				if cnt[0]+1 > t[0] || cnt[1]+1 > t[1] {
+					sc.Expect = append(sc.Expect, "block:"+base.BlockTypeFlow.String())
+				} else {
+					sc.Expect = append(sc.Expect, "pass")
+					cnt[0]++
+					cnt[1]++
+				}
+			}
+			sc.Label = fmt.Sprintf("flow reject over a private %d ms window: %d admitted, then two rules with that interval, thresholds %v and %v (the first inherits the window, the second starts empty)", iv, n, t[0], t[1])
+			return sc
+		}
 		t2 := float64(int64(n) + r.PickI(-1, 0, 0, 1, 2))
 		if t2 < 1 {
 			t2 = 1
@@ -191,6 +227,12 @@ func brkKit(m *rulesh.Mod[cb.Rule]) *kit[cb.Rule] {
 		})
 	}
 	kt.drain = func() {}
+	kt.genRule = func(res string) *cb.Rule {
+		return &cb.Rule{Resource: res, Strategy: 9, RetryTimeoutMs: 1000, MinRequestAmount: 1, StatIntervalMs: 1000, Threshold: 1}
+	}
+	if err := cb.SetCircuitBreakerGenerator(9, func(*cb.Rule, interface{}) (cb.CircuitBreaker, error) { runGenAct(); return nil, errIgnored }); err != nil {
+		panic(err)
+	}
 	kt.newRun = func(res string, u *cb.Rule) func(e ev) dec {
 		return func(e ev) dec {
 			clk.AddMs(e.Dt)
@@ -214,6 +256,38 @@ func brkKit(m *rulesh.Mod[cb.Rule]) *kit[cb.Rule] {
 		}
 	}
 	kt.stat = func(r *rng.R, res string) statScen[cb.Rule] {
+		if r.Chance(1, 3) {
+			// one old statistics object, two new rules with its statistic parameters (neither equal to
+			// the old rule): the first in list order counts on from the recorded failures, the second from 0
+			n := 1 + r.Intn(4)
+			sc := statScen[cb.Rule]{BaseMs: 1700000000000, Reuse: true}
+			sc.Pre = []*cb.Rule{{Resource: res, Strategy: cb.ErrorCount, RetryTimeoutMs: 5000, MinRequestAmount: 1, StatIntervalMs: 10000, StatSlidingWindowBucketCount: 1, Threshold: 100}}
+			for i := 0; i < n; i++ {
+				sc.Warm = append(sc.Warm, ev{Dt: 1, Err: true})
+			}
+			t := [2]float64{float64(int64(n) + r.PickI(1, 2, 3, 50)), float64(r.PickI(2, 3, 4, 5, 60))}
+			if t[0] == t[1] {
+				t[1]++
+			}
+			m1, m2 := *sc.Pre[0], *sc.Pre[0]
+			m1.Threshold, m2.Threshold = t[0], t[1]
+			sc.Mod = []*cb.Rule{&m1, &m2}
+			cnt := [2]float64{float64(n), 0} // own ledger of the two error counters
+			open := false
+			for i := 0; i < 7; i++ {
+				sc.Probe = append(sc.Probe, ev{Dt: 1, Err: true})
+				if open {
+					sc.Expect = append(sc.Expect, "block:"+base.BlockTypeCircuitBreaking.String())
+					continue
+				}
+				sc.Expect = append(sc.Expect, "pass")
+				cnt[0]++
+				cnt[1]++
+				open = cnt[0] >= t[0] || cnt[1] >= t[1]
+			}
+			sc.Label = fmt.Sprintf("breaker error count: %d failures recorded, then two rules with that window, thresholds %v and %v (the first inherits the counters, the second starts at 0)", n, t[0], t[1])
+			return sc
+		}
 		n := 2 + r.Intn(4)
 		t2 := float64(int64(n) + r.PickI(0, 1, 1, 2))
 		sc := statScen[cb.Rule]{BaseMs: 1700000000000, Reuse: r.Chance(3, 4)}
@@ -302,6 +376,12 @@ func hotKit(m *rulesh.Mod[hotspot.Rule]) *kit[hotspot.Rule] {
 		}
 		held = nil
 	}
+	kt.genRule = func(res string) *hotspot.Rule {
+		return &hotspot.Rule{Resource: res, MetricType: hotspot.QPS, ControlBehavior: 10, Threshold: huge, DurationInSec: 1}
+	}
+	if err := hotspot.SetTrafficShapingGenerator(10, func(*hotspot.Rule, *hotspot.ParamsMetric) hotspot.TrafficShapingController { runGenAct(); return nil }); err != nil {
+		panic(err)
+	}
 	kt.newRun = func(res string, u *hotspot.Rule) func(e ev) dec {
 		return func(e ev) dec {
 			clk.AddMs(e.Dt)
@@ -361,6 +441,43 @@ func hotKit(m *rulesh.Mod[hotspot.Rule]) *kit[hotspot.Rule] {
 				sc.Expect[0] = "block:" + base.BlockTypeHotSpotParamFlow.String()
 			}
 			sc.Label = fmt.Sprintf("hotspot concurrency: %d calls for value 1 in flight, then threshold %d (capacity %d)", T, T, mod.ParamsMaxCapacity)
+			return sc
+		}
+		if r.Chance(1, 3) {
+			// one old statistics object, two new rules with its statistic parameters: the first in list
+			// order goes on with the tokens value 1 has left, the second meets value 1 for the first time
+			k := int(r.PickI(7, 8, 9, 10))
+			sc := statScen[hotspot.Rule]{BaseMs: 1700000000000, Reuse: true}
+			sc.Pre = []*hotspot.Rule{{Resource: res, MetricType: hotspot.QPS, ControlBehavior: hotspot.Reject, Threshold: 10, DurationInSec: 100}}
+			for i := 0; i < k; i++ {
+				sc.Warm = append(sc.Warm, ev{Dt: 1, Arg: 1})
+			}
+			t := [2]int64{r.PickI(5, 11, 20), r.PickI(1, 2, 3, 4, 30)}
+			if t[0] == t[1] {
+				t[1]++
+			}
+			m1, m2 := *sc.Pre[0], *sc.Pre[0]
+			m1.Threshold, m2.Threshold = t[0], t[1]
+			sc.Mod = []*hotspot.Rule{&m1, &m2}
+			// own ledger: the controllers are asked in order, each one that admits takes a token at once
+			left := [2]int64{int64(10 - k), 0}
+			seen := [2]bool{true, false}
+			for i := 0; i < 6; i++ {
+				sc.Probe = append(sc.Probe, ev{Dt: 1, Arg: 1})
+				out := "pass"
+				for j := 0; j < 2; j++ {
+					if !seen[j] {
+						seen[j], left[j] = true, t[j]-1
+					} else if left[j] >= 1 {
+						left[j]--
+					} else {
+						out = "block:" + base.BlockTypeHotSpotParamFlow.String()
+						break
+					}
+				}
+				sc.Expect = append(sc.Expect, out)
+			}
+			sc.Label = fmt.Sprintf("hotspot QPS reject: %d of 10 tokens of value 1 spent, then two rules with that duration and capacity, thresholds %d and %d (the first inherits the counters, the second starts fresh)", k, t[0], t[1])
 			return sc
 		}
 		k := int(r.PickI(8, 9, 10, 10))
